@@ -813,7 +813,8 @@ func heldByAnother(res *engine.Result, fail *vnet.Ev) bool {
 	if err != nil {
 		return false
 	}
-	open := map[int]bool{}
+	open := map[int][2]int{}
+	returned := map[[2]int]bool{} // listeners that have returned: what they still hold is theirs to have released
 	for _, e := range res.Trace {
 		if e.Seq >= fail.Seq {
 			break
@@ -821,13 +822,22 @@ func heldByAnother(res *engine.Result, fail *vnet.Ev) bool {
 		switch e.Kind {
 		case "sock-open":
 			if p, err := netip.ParseAddrPort(e.Src); err == nil && p.Port() == ap.Port() && strings.HasPrefix(e.Note, "udp") {
-				open[e.Sock] = true
+				open[e.Sock] = [2]int{e.Task, e.Step}
 			}
 		case "sock-close":
 			delete(open, e.Sock)
+		case "point":
+			if e.Note == "listen-end" {
+				returned[[2]int{e.Task, e.Step}] = true
+			}
 		}
 	}
-	return len(open) > 0
+	for _, owner := range open {
+		if !returned[owner] {
+			return true
+		}
+	}
+	return false
 }
 
 func foreignHolds(sc *engine.Scenario, listen string) bool {
